@@ -1,9 +1,13 @@
 import PhononModel.Lemmas.UnitAlgebra
 import PhononModel.Lemmas.CrystalEquiv
+import PhononModel.Lemmas.ForcePairing
+import PhononModel.Lemmas.WriterFormat
+import PhononModel.Gen.WriterFormats
 import PhononModel.Gen.Units
 import PhononModel.Model.UnitSpec
 import Mathlib.Tactic.NormNum
 import Mathlib.Tactic.FieldSimp
+import Mathlib.Tactic.Linarith
 /-!
 # C17 — calculator interfaces preserve the crystal and the physical units
 
@@ -192,6 +196,188 @@ theorem stableGroup_perm {β : Type} (l : List (Nat × β)) :
       (firstOccur (l.map (·.1))).flatMap (fun s => List.replicate ((l.map (·.1)).count s) s) :=
   ⟨Crystal.stableGroup_perm l, Crystal.stableGroup_stable l, Crystal.stableGroup_species l⟩
 
+/-! ### create_FORCE_SETS: which atom gets which force row -/
+
+section ForcePairing
+open PhononModel.ForcePairing
+
+/-- **accepted ⇒ paired by index**: when `create_FORCE_SETS` writes force sets, displacement `i` of
+phonopy_disp.yaml receives exactly the force rows of file `i`, every file has one row per supercell
+atom, and row `k` is given to supercell atom `k` (the order assumption of every interface). -/
+theorem collect_pairs_by_index (u : Bool) (natom : Nat) (L : ForcePairing.Mat3) (tol2 : Rat) (scpos : List V3)
+    (disps : List (List V3)) (outs : List Output) (fs : List (List V3))
+    (h : collect u natom L tol2 scpos disps outs = .ok fs) :
+    fs = outs.map (·.forces) ∧ fs.length = disps.length ∧ ∀ o ∈ outs, o.forces.length = natom := by
+  unfold collect at h
+  split at h
+  · cases h
+  · next hlen =>
+    split at h
+    · cases h
+    · next hb =>
+      have hn : ∀ o ∈ outs, o.forces.length = natom := fun o ho => by
+        simpa using firstBad_none _ outs 0 hb o ho
+      have hlen' : disps.length = outs.length := by simpa using hlen
+      split at h
+      · split at h
+        · cases h
+        · injection h with h; subst h; exact ⟨rfl, by simp [hlen'], hn⟩
+      · injection h with h; subst h; exact ⟨rfl, by simp [hlen'], hn⟩
+
+/-- **accepted with positions ⇒ the rows really belong to those atoms**: for an interface whose parser
+returns the printed positions (VASP), acceptance implies that in every file the k-th printed position
+is the displaced position of supercell atom k modulo lattice vectors within the tolerance. -/
+theorem collect_checked_rows_match (natom : Nat) (L : ForcePairing.Mat3) (tol2 : Rat) (scpos : List V3)
+    (disps : List (List V3)) (outs : List Output) (fs : List (List V3))
+    (h : collect true natom L tol2 scpos disps outs = .ok fs) :
+    ∀ t ∈ disps.zip outs, RowsMatchAtoms L tol2 scpos t.1 t.2 := by
+  unfold collect at h
+  split at h
+  · cases h
+  · split at h
+    · cases h
+    · simp only [if_true] at h
+      split at h
+      · cases h
+      · next hb =>
+        intro t ht
+        exact agreeFile_rows L tol2 scpos t.1 t.2 (firstBad_none _ _ 0 hb t ht)
+
+/-- **the guards reject**: a wrong number of files, a file with another number of force rows, and (with
+positions) a file whose rows are not in supercell order are all refused. -/
+theorem collect_guards_reject (u : Bool) (natom : Nat) (L : ForcePairing.Mat3) (tol2 : Rat) (scpos : List V3)
+    (disps : List (List V3)) (outs : List Output) :
+    (disps.length ≠ outs.length → collect u natom L tol2 scpos disps outs = .error .countMismatch) ∧
+    (disps.length = outs.length → (∃ o ∈ outs, o.forces.length ≠ natom) →
+      ∃ i, collect u natom L tol2 scpos disps outs = .error (.natomMismatch i)) ∧
+    (disps.length = outs.length → (∀ o ∈ outs, o.forces.length = natom) →
+      (∃ t ∈ disps.zip outs, agreeFile L tol2 scpos t.1 t.2.printed = false) →
+      ∃ i, collect true natom L tol2 scpos disps outs = .error (.positionMismatch i)) := by
+  refine ⟨fun h => by simp [collect, h], fun hl ⟨o, ho, hne⟩ => ?_, fun hl hall hbad => ?_⟩
+  · obtain ⟨k, hk⟩ := firstBad_of_bad (fun o : Output => o.forces.length == natom) outs 0 ⟨o, ho, by simpa using hne⟩
+    exact ⟨k, by simp [collect, hl, hk]⟩
+  · have hnone : firstBad (fun o : Output => o.forces.length == natom) outs 0 = none := by
+      cases hfb : firstBad (fun o : Output => o.forces.length == natom) outs 0 with
+      | none => rfl
+      | some k =>
+        obtain ⟨a, ha, hp⟩ := firstBad_some _ outs 0 k hfb
+        have := hall a ha
+        simp [this] at hp
+    obtain ⟨k, hk⟩ := firstBad_of_bad (fun t : List V3 × Output => agreeFile L tol2 scpos t.1 t.2.printed) (disps.zip outs) 0 hbad
+    exact ⟨k, by simp [collect, hl, hnone, hk]⟩
+
+/-! Known findings `KF-C17-elk-output-order` / `KF-C17-abacus-output-order` as a witness in the model:
+supercell Na, Cl, Na (interleaved); the structure file groups by species (Na, Na, Cl), the program
+prints forces and positions in that order. -/
+def exL : ForcePairing.Mat3 := fun i j => if i.1 = j.1 then 4 else 0
+def exPos : List V3 := [(0, 0, 0), (1 / 2, 1 / 2, 1 / 2), (1 / 4, 0, 0)]
+def exDisp : List V3 := [(1 / 100, 0, 0), (0, 0, 0), (0, 0, 0)]
+/-- true forces on supercell atoms 0, 1, 2 -/
+def exForces : List V3 := [(-3, 0, 0), (2, 0, 0), (1, 0, 0)]
+/-- the program's output, rows in the regrouped order 0, 2, 1 -/
+def exOut : Output :=
+  { forces := [(-3, 0, 0), (1, 0, 0), (2, 0, 0)], printed := [(1 / 100, 0, 0), (1 / 4, 0, 0), (1 / 2, 1 / 2, 1 / 2)] }
+
+/-- a parser that drops the printed positions (elk, abacus, …) accepts the regrouped output and gives
+atom 1 (Cl) the force of atom 2 (Na) although the printed positions say otherwise … -/
+theorem regrouped_output_counterexample :
+    collect false 3 exL (1 / 10 ^ 10) exPos [exDisp] [exOut] = .ok [exOut.forces] ∧
+    exOut.forces ≠ exForces ∧ ¬ RowsMatchAtoms exL (1 / 10 ^ 10) exPos exDisp exOut := by
+  refine ⟨by decide +kernel, by decide +kernel, ?_⟩
+  rintro ⟨_, _, h⟩
+  obtain ⟨z, hz⟩ := h ((1 / 2, 1 / 2, 1 / 2), ((0, 0, 0), (1 / 4, 0, 0))) (by decide +kernel)
+  -- |(1/4 − z₁, 1/2 − z₂, 1/2 − z₃)·4|² ≥ 4 for integers z
+  obtain ⟨z1, z2, z3⟩ := z
+  simp only [cartNormSq, vsub, vadd, ofInt, exL] at hz
+  norm_num at hz
+  have h2 : (0 : ℚ) ≤ (1 / 4 - (z1 : ℚ)) ^ 2 := sq_nonneg _
+  have h3 : (1 : ℚ) / 4 ≤ (1 / 2 - (z2 : ℚ)) ^ 2 := by
+    have : (2 * (z2 : ℚ) - 1) ^ 2 ≥ 1 := by
+      have hz2 : (2 * z2 - 1) ^ 2 ≥ (1 : ℤ) := by
+        have : 2 * z2 - 1 ≠ 0 := by omega
+        have := Int.one_le_abs this
+        nlinarith [abs_mul_abs_self (2 * z2 - 1), abs_nonneg (2 * z2 - 1)]
+      exact_mod_cast hz2
+    nlinarith
+  have h4 : (0 : ℚ) ≤ (1 / 2 - (z3 : ℚ)) ^ 2 := sq_nonneg _
+  nlinarith
+
+/-- … whereas with the positions handed over (VASP) the same output is refused. -/
+theorem regrouped_output_refused_with_points :
+    collect true 3 exL (1 / 10 ^ 10) exPos [exDisp] [exOut] = .error (.positionMismatch 0) := by decide +kernel
+
+/-- and an output in supercell order shifted by lattice vectors is accepted (non-vacuity) -/
+example : collect true 3 exL (1 / 10 ^ 10) exPos [exDisp]
+    [{ forces := exForces, printed := [(1 / 100, 1, 0), (-1 / 2, 1 / 2, 3 / 2), (1 / 4, 0, -2)] }] = .ok [exForces] := by
+  decide +kernel
+
+end ForcePairing
+
+/-! ### numeric formats of the structure writers (table `Gen/WriterFormats.lean`, regenerated every run) -/
+
+section WriterFormats
+open PhononModel.WriterFormat PhononModel.Gen.WriterFormats
+
+/-- **with a separator no two fields fuse, for any values**: a line written with a format whose
+fields are separated by a blank is split by a free-format reader into exactly the printed fields. -/
+theorem separated_fields_never_fuse (f : FieldFmt) (hs : f.sep = true) (xs : List Rat) :
+    tokens (line f xs) = xs.map (render f.decimals) := by
+  have h := tokens_of_separated (xs.map (fun x => (f.width - (render f.decimals x).length, render f.decimals x)))
+    (by
+      intro p hp
+      obtain ⟨x, _, rfl⟩ := List.mem_map.mp hp
+      exact ⟨render_ne_nil _ _, render_noblank _ _⟩)
+  simp only [List.map_map] at h
+  unfold line
+  simp only [hs, if_true]
+  have e1 : (fun x => [' '] ++ padLeft f.width (render f.decimals x)) =
+      ((fun p : Nat × List Char => ' ' :: (List.replicate p.1 ' ' ++ p.2)) ∘ fun x =>
+        (f.width - (render f.decimals x).length, render f.decimals x)) := by
+    funext x; simp [padLeft]
+  have e2 : render f.decimals =
+      ((fun x : Nat × List Char => x.2) ∘ fun x => (f.width - (render f.decimals x).length, render f.decimals x)) := by
+    funext x; rfl
+  rw [e1, h, ← e2]
+
+/-- **without one they can** — the position format of the CRYSTAL/TURBOMOLE writers as found
+(`"%16.12f"*3`), and their lattice format (`"%12.8f"*3`): a coordinate ≤ −10 glues two numbers. -/
+theorem unseparated_fields_fuse_counterexample :
+    fieldsSurvive ⟨16, 12, false, .fixed⟩ [35625 / 10000, -10125 / 1000, 1] = false ∧
+    fieldsSurvive ⟨12, 8, false, .fixed⟩ [20, -21 / 2, 0] = false ∧
+    fieldsSurvive ⟨16, 12, true, .fixed⟩ [35625 / 10000, -10125 / 1000, 1] = true := by decide +kernel
+
+/-- **printed precision**: a number printed with `d` decimals comes back within half a unit of the
+last place. -/
+theorem printed_precision (d : Nat) (x : ℚ) : |x - roundTo d x| ≤ 1 / (2 * 10 ^ d) :=
+  roundTo_error d x
+
+/-- **wrapping positions into [0,1) preserves the crystal** (and the checker's canonical form) -/
+theorem wrapping_preserves_crystal (c : Cell) :
+    Crystal.Equiv c (wrapCell c) ∧ sortedKeys (wrapCell c).atoms = sortedKeys c.atoms :=
+  ⟨wrap_equiv c, sortedKeys_wrap c.atoms⟩
+
+/-- on the generated table: every writer keeps ≥ 8 decimals of the positions and ≥ 6 of the lattice;
+the writers that wrap positions are exactly those using `get_scaled_positions_lines` and Wien2k. -/
+theorem gen_writer_table :
+    (∀ w ∈ writerFormats, 8 ≤ w.position.decimals ∧ 6 ≤ w.lattice.decimals) ∧
+    (writerFormats.filter (·.wraps)).map (·.name) = ["vasp", "abinit", "qe", "wien2k", "elk"] ∧
+    writerFormats.length = 15 := by decide +kernel
+
+/-- **fixed-column readers (Wien2k)**: the writer wraps positions into [0,1) and prints them in a
+field of width `decimals + 2`; a number in [0,1) rendered with `d ≥ 1` decimals has exactly `d + 2`
+characters, so the columns `parse_wien2k_struct` slices never shift. -/
+theorem columns_fit_wrapped_positions :
+    (∀ w ∈ writerFormats, w.reader = .columns →
+      w.wraps = true ∧ w.position.width = w.position.decimals + 2 ∧ 1 ≤ w.position.decimals) ∧
+    ∀ (d : Nat), 1 ≤ d → ∀ x : ℚ, 0 ≤ x → x < 1 → (padLeft (d + 2) (render d x)).length = d + 2 := by
+  refine ⟨by decide +kernel, fun d hd x h0 h1 => ?_⟩
+  simp [padLeft, render_length_unit d hd x h0 h1]
+
+example : tokens (line ⟨16, 12, true, .fixed⟩ [-10125 / 1000, 1 / 3]) =
+    ["-10.125000000000".toList, "0.333333333333".toList] := by decide +kernel
+
+end WriterFormats
+
 /-! ### non-vacuity -/
 
 /-- the docstring example of `sort_positions_by_symbols`: symbols A B A B ↦ perm [0, 2, 1, 3], counts [2, 2] -/
@@ -230,5 +416,16 @@ end PhononModel.C17
 #print axioms PhononModel.C17.checkEquiv_sound
 #print axioms PhononModel.C17.checkEquivWith_sound
 #print axioms PhononModel.C17.stableGroup_perm
+#print axioms PhononModel.C17.separated_fields_never_fuse
+#print axioms PhononModel.C17.unseparated_fields_fuse_counterexample
+#print axioms PhononModel.C17.printed_precision
+#print axioms PhononModel.C17.wrapping_preserves_crystal
+#print axioms PhononModel.C17.gen_writer_table
+#print axioms PhononModel.C17.columns_fit_wrapped_positions
+#print axioms PhononModel.C17.collect_pairs_by_index
+#print axioms PhononModel.C17.collect_checked_rows_match
+#print axioms PhononModel.C17.collect_guards_reject
+#print axioms PhononModel.C17.regrouped_output_counterexample
+#print axioms PhononModel.C17.regrouped_output_refused_with_points
 #print axioms PhononModel.Units.norm_sound
 #print axioms PhononModel.Units.normEq_sound
